@@ -93,7 +93,28 @@ pub fn pool() -> Vec<String> {
     v
 }
 
+/// "double-encoded" text: the UTF-8 bytes of a non-ASCII string read as Latin-1 characters.
+/// The Latin-1 byte image of such a string is itself well-formed UTF-8.
+pub fn mojibake(rng: &mut Rng) -> String {
+    let n = rng.range(1, 12) as usize;
+    let mut s = String::new();
+    for _ in 0..n {
+        match rng.below(4) {
+            0 => s.push(char::from_u32(rng.range(0xA0, 0x7FF) as u32).unwrap_or('x')),
+            1 => s.push(*rng.pick(&['\u{b0}', '\u{f6}', '\u{e9}', '\u{fc}', '\u{20ac}'])),
+            _ => s.push(rng.range(0x20, 0x7E) as u8 as char),
+        }
+    }
+    if s.is_ascii() {
+        s.push('\u{b0}');
+    }
+    s.bytes().map(|b| char::from_u32(b as u32).unwrap()).collect()
+}
+
 pub fn hostile_string(rng: &mut Rng) -> String {
+    if rng.chance(1, 12) {
+        return mojibake(rng);
+    }
     match rng.below(8) {
         0 | 1 => {
             let p = pool();
@@ -137,6 +158,13 @@ pub fn invalid_utf8(rng: &mut Rng) -> Vec<u8> {
         &[0xF4, 0x90, 0x80, 0x80],
     ];
     let b = *rng.pick(bad);
+    if rng.chance(1, 4) {
+        // a multi-byte character cut short at the very end of the text
+        let cut: &[&[u8]] = &[&[0xC3], &[0xE2, 0x82], &[0xE2], &[0xF0, 0x9F, 0x98], &[0xF0, 0x9F], &[0xF0], &[0xDF]];
+        v.truncate(250);
+        v.extend_from_slice(*rng.pick(cut));
+        return v;
+    }
     let pos = if v.is_empty() { 0 } else { rng.usize_below(v.len() + 1) };
     // insert on a character boundary so that only the inserted bytes are wrong
     let mut p = pos;
